@@ -139,8 +139,10 @@ def C13_check_missing_read_target(case, params):
     f = _f(case)
     if f.get("kind") != "check-raises" or f.get("cls") != "FileNotFoundError":
         return False
-    have = set((case.get("files") or {}).keys()) | {case.get("name", "case.i")}
-    return any(t not in have for t in _read_targets(case["text"]))
+    files = dict(case.get("files") or {})
+    files[case.get("name", "case.i")] = case["text"]
+    # a read input, in the file or in a file it (transitively) reads, names a file that is not there
+    return any(t not in files for text in files.values() for t in _read_targets(text))
 
 
 KNOCK_ON = ("AttributeError", "KeyError", "IndexError", "ParticleTypeNotInProblem", "ParticleTypeNotInCell")
